@@ -357,6 +357,12 @@ func (b *Broker) handleConn(conn net.Conn) {
 	cid := client.info.cid
 
 	b.Lock()
+	if b.closed() {
+		// closed while this connection was still in its handshake: close()
+		// sets b.clients to nil, registering now would panic.
+		b.Unlock()
+		return
+	}
 	if oldClient, ok := b.clients[cid]; ok {
 		logger.SpanDebugf(nil, "client %v take over by new client with same name", oldClient.info.cid)
 		oldClient.setTakenOver()
